@@ -14,12 +14,15 @@ DefaultPort(sc) == IF sc \in {"http", "ws"} THEN 80 ELSE 443
 OtherDefault(sc) == IF sc \in {"http", "ws"} THEN 443 ELSE 80
 
 Shapes == [scheme : Schemes, upper : BOOLEAN, user : {"none", "user", "userpw"},
-           hostk : {"name", "mixed", "ipv4", "ipv6"}, port : {"none", "default", "otherdefault", "custom"},
+           hostk : {"name", "mixed", "ipv4", "ipv6", "ipv6mixed"}, port : {"none", "default", "otherdefault", "custom"},
            path : {"empty", "root", "segs", "lastparam", "innerparam", "dots", "pct"},
            query : {"none", "empty", "plain", "semi", "qmark"}, frag : BOOLEAN, form : {"str", "bytes"}]
 
 (* the host as stored: lower-cased, an IPv6 literal without its brackets *)
-HostTok(s) == CASE s.hostk \in {"name", "mixed"} -> "example.com" [] s.hostk = "ipv4" -> "127.0.0.1" [] OTHER -> "::1"
+HostTok(s) == CASE s.hostk \in {"name", "mixed"} -> "example.com" [] s.hostk = "ipv4" -> "127.0.0.1"
+                [] s.hostk = "ipv6mixed" -> "2001:db8::a"      \* written [2001:DB8::A]: hex digits are case-insensitive too
+                [] OTHER -> "::1"
+IsV6(s) == s.hostk \in {"ipv6", "ipv6mixed"}
 Port(s) == CASE s.port = "none" -> 0 [] s.port = "default" -> DefaultPort(s.scheme)
              [] s.port = "otherdefault" -> OtherDefault(s.scheme) [] OTHER -> 8080
 
@@ -46,7 +49,7 @@ Expected(s) ==
    \* the origin fills in the scheme's default port
    oport  |-> IF Port(s) = 0 THEN DefaultPort(s.scheme) ELSE Port(s),
    \* the synthesised Host header: IPv6 literals bracketed, the port iff it is not the default
-   hosthdr |-> (IF s.hostk = "ipv6" THEN <<"[", "::1", "]">> ELSE <<HostTok(s)>>)
+   hosthdr |-> (IF IsV6(s) THEN <<"[", HostTok(s), "]">> ELSE <<HostTok(s)>>)
                \o (IF Port(s) # 0 /\ Port(s) # DefaultPort(s.scheme) THEN <<":", Port(s)>> ELSE <<>>),
    \* serialising parses back to an equal URL
    roundtrip |-> "equal"]
